@@ -10,12 +10,22 @@
 #include <sched.h>
 
 static void c16_sp(int kind);
+/* extension J (MicroFull): the function a CAS sits in, and the pool calls of the dictionary, are recorded */
+static const char *volatile c16_fn = "";
+struct qt_mpool_s;
+static void *jx_alloc(struct qt_mpool_s *pool);
+static void  jx_free(struct qt_mpool_s *pool, void *mem);
 #undef qthread_cas
 #undef qthread_cas_ptr
-#define qthread_cas(ADDR, OLDV, NEWV)     (c16_sp(1), __sync_val_compare_and_swap((ADDR), (OLDV), (NEWV)))
-#define qthread_cas_ptr(ADDR, OLDV, NEWV) (c16_sp(2), (void *)__sync_val_compare_and_swap((ADDR), (OLDV), (NEWV)))
+#define qthread_cas(ADDR, OLDV, NEWV)     (c16_fn = __func__, c16_sp(1), __sync_val_compare_and_swap((ADDR), (OLDV), (NEWV)))
+#define qthread_cas_ptr(ADDR, OLDV, NEWV) (c16_fn = __func__, c16_sp(2), (void *)__sync_val_compare_and_swap((ADDR), (OLDV), (NEWV)))
+#include <qthread/qpool.h>
+#define qpool_alloc(P)   jx_alloc(P)
+#define qpool_free(P, M) jx_free((P), (M))
 
 #include "ds/dictionary/dictionary_shavit.c"
+#undef qpool_alloc
+#undef qpool_free
 #include <qthread/hash.h>
 
 /* ---------------- schedule points ---------------- */
@@ -46,11 +56,15 @@ static inline void sp_log(int t, int kind)
     if (i < MAXLOG) { splog_t[i] = (unsigned char)t; splog_k[i] = (unsigned char)kind; }
 }
 
+static int  jx_on = 0;
+static void jx_arrive(int me, int kind);
+
 static void c16_sp(int kind)
 {
     if (!sp_on) { return; }
     int me = cur_t;
     sp_log(me, kind);
+    if (jx_on) { jx_arrive(me, kind); return; }
     uint64_t c = __sync_fetch_and_add(&sp_ctr, 1);
     uint64_t r = mix64(sp_seed + c * 0x100000001B3ULL);
     if ((int)(r & 255) < sp_prob) {
@@ -97,6 +111,7 @@ static int my_equals(void *a, void *b)
 
 static qt_dictionary *D = NULL;
 static size_t         default_cap = 0;
+qt_dictionary *jx_D(void) { return D; }
 
 static void on_alarm(int s) { printf("TIMEOUT\n"); fflush(stdout); _exit(3); }
 
@@ -167,10 +182,111 @@ static volatile uint64_t stamp = 0;
 static volatile int      go    = 0;
 static aligned_t         trets[MAXT];
 
+/* ---------------- extension J: directed schedules, state snapshots at every schedule point ---------------- */
+#define JX_PBASE 1152921504606846976ULL
+#define JX_MAXN  4096
+#define JX_MAXS  8192
+static void    *jx_node[JX_MAXN];   /* ordinal -> address */
+static int      jx_nn = 0;
+static void    *jx_shadow[JX_MAXN]; /* the pool's free list as implied by the alloc / free calls seen (top last) */
+static int      jx_nsh = 0;
+static int      jx_poolbad = 0;
+static int      jx_sched[JX_MAXS];
+static int      jx_ns = 0;
+static volatile int jx_g = 0;
+static volatile int jx_done[16];
+static char     jx_buf[1 << 22];
+static size_t   jx_len = 0;
+
+static int jx_ord(void *p)
+{
+    for (int i = 0; i < jx_nn; i++) if (jx_node[i] == p) { return i; }
+    return -1;
+}
+static int jx_ord_add(void *p)
+{
+    int o = jx_ord(p);
+    if (o < 0 && jx_nn < JX_MAXN) { o = jx_nn; jx_node[jx_nn++] = p; }
+    return o;
+}
+static unsigned long long jx_canon(uintptr_t w)
+{
+    int o = w ? jx_ord((void *)w) : -1;
+    return (o >= 0) ? (JX_PBASE + (unsigned long long)o) : (unsigned long long)w;
+}
+static void *jx_alloc(struct qt_mpool_s *pool)
+{
+    void *p = (qpool_alloc)(pool);
+    if (jx_nsh > 0) {
+        if (jx_shadow[jx_nsh - 1] == p) { jx_nsh--; } else { jx_poolbad++; }
+    }
+    if (jx_on) { jx_ord_add(p); }
+    return p;
+}
+static void jx_free(struct qt_mpool_s *pool, void *mem)
+{
+    (qpool_free)(pool, mem);
+    if (jx_nsh < JX_MAXN) { jx_shadow[jx_nsh++] = mem; }
+}
+#define JX_P(...) do { if (jx_len + 512 < sizeof jx_buf) { jx_len += (size_t)snprintf(jx_buf + jx_len, 512, __VA_ARGS__); } } while (0)
+/* " | ord:so:key:val:mark ... | ord:so:key:val:next:mark ..." : the list from B[0] (at most 64 nodes), then the pool's free
+ * list read from the nodes' own memory (first word = next free node), starting at the node freed last */
+static void jx_snap(void)
+{
+    extern qt_dictionary *jx_D(void);
+    qt_dictionary *d = jx_D();
+    marked_ptr_t   c = d->B[0];
+    int            n = 0;
+    JX_P(" |");
+    while (PTR_OF(c) != NULL && n < 64) {
+        hash_entry *e = PTR_OF(c);
+        JX_P(" %d:%llu:%llu:%llu:%d", jx_ord(e), (unsigned long long)e->hashed_key, jx_canon((uintptr_t)e->key), jx_canon((uintptr_t)e->value), (int)MARK_OF((marked_ptr_t)e->next));
+        c = (marked_ptr_t)e->next;
+        n++;
+    }
+    JX_P(" |");
+    void *f = jx_nsh ? jx_shadow[jx_nsh - 1] : NULL;
+    n = 0;
+    while (f != NULL && n < 64) {
+        hash_entry *e = (hash_entry *)f;
+        int         o = jx_ord(e);
+        if (o < 0) { JX_P(" ?"); break; }
+        JX_P(" %d:%llu:%llu:%llu:%d:%d", o, (unsigned long long)e->hashed_key, jx_canon((uintptr_t)e->key), jx_canon((uintptr_t)e->value),
+             PTR_OF((marked_ptr_t)e->next) ? jx_ord(PTR_OF((marked_ptr_t)e->next)) : -1, (int)MARK_OF((marked_ptr_t)e->next));
+        f = e->value;                /* qt_mpool_cache_t.next lives in the first word */
+        n++;
+    }
+    if (jx_poolbad) { JX_P(" POOL-NOT-LIFO"); }
+    JX_P("\n");
+}
+static void jx_wait(int me)
+{
+    for (;;) {
+        while (jx_g < jx_ns && (jx_sched[jx_g] < 0 || jx_sched[jx_g] >= 16 || jx_done[jx_sched[jx_g]])) { jx_g++; } /* grants of finished tasks are void */
+        if (jx_g >= jx_ns || jx_sched[jx_g] == me) { return; }
+        qthread_yield();
+    }
+}
+static void jx_arrive(int me, int kind)
+{
+    int k = kind;
+    if (kind == 1) {
+        const char *f = c16_fn;
+        k = !strcmp(f, "qt_lf_list_insert") ? 11 : !strcmp(f, "qt_lf_force_list_insert") ? 12 : !strcmp(f, "qt_lf_list_find") ? 13 : !strcmp(f, "qt_lf_list_delete") ? 14 : 19;
+    }
+    JX_P("A %d %d", me, k);
+    jx_snap();
+    jx_g++;
+    if (kind == 9) { jx_done[me] = 1; return; }
+    jx_wait(me);
+    cur_t = me;
+}
+
 static aligned_t task_body(void *arg)
 {
     int t = (int)(intptr_t)arg;
     while (!go) { qthread_yield(); }
+    if (jx_on) { jx_wait(t); }
     cur_t = t;
     for (int i = 0; i < ntops[t]; i++) {
         cop_t *o = &tops[t][i];
@@ -186,6 +302,7 @@ static aligned_t task_body(void *arg)
         o->res = __sync_fetch_and_add(&stamp, 1);
     }
     sp_log(t, 9);
+    if (jx_on) { jx_arrive(t, 9); }
     return 0;
 }
 
@@ -275,6 +392,36 @@ int main(void)
                 printf("\n");
             }
             printf("G %llu %llu\n", (unsigned long long)sp_ctr, (unsigned long long)sp_taken);
+        } else if (line[0] == 'J') {       /* J nt g g g ... : run the op lists of tasks 0..nt-1 under the directed schedule of grants (extension J) */
+            int nt = 0; char *p = line + 1, *e;
+            nt = (int)strtol(p, &e, 10); p = e;
+            jx_ns = 0;
+            for (;;) { long g = strtol(p, &e, 10); if (e == p) break; p = e; if (jx_ns < JX_MAXS) { jx_sched[jx_ns++] = (int)g; } }
+            if (nt > 16) { nt = 16; }
+            jx_nn = 0; jx_len = 0; jx_g = 0; jx_poolbad = 0;
+            memset((void *)jx_done, 0, sizeof jx_done);
+            for (int t = nt; t < 16; t++) { jx_done[t] = 1; }
+            {   /* ordinals: the list in list order, then the free list from the node freed last */
+                marked_ptr_t c = D->B[0]; int n = 0;
+                while (PTR_OF(c) != NULL && n++ < 1000) { jx_ord_add(PTR_OF(c)); c = (marked_ptr_t)PTR_OF(c)->next; }
+                for (int i = jx_nsh - 1; i >= 0; i--) { jx_ord_add(jx_shadow[i]); }
+            }
+            sp_prob = 0; sp_spin = 0; sp_ctr = 0; sp_taken = 0; stamp = 0; go = 0; splog_n = 0; cur_t = -1;
+            JX_P("J0");
+            jx_snap();
+            alarm(30);
+            for (int t = 0; t < nt; t++) { qthread_fork(task_body, (void *)(intptr_t)t, &trets[t]); }
+            jx_on = 1; sp_on = 1; go = 1;
+            for (int t = 0; t < nt; t++) { qthread_readFF(NULL, &trets[t]); }
+            sp_on = 0; jx_on = 0;
+            fputs(jx_buf, stdout);
+            for (int t = 0; t < nt; t++) {
+                for (int i = 0; i < ntops[t]; i++) {
+                    cop_t *o = &tops[t][i];
+                    printf("E %d %d %c %lu %lu %llu %llu %llu\n", t, i, o->op, o->k, o->v, jx_canon((uintptr_t)o->ret), (unsigned long long)o->inv, (unsigned long long)o->res);
+                }
+            }
+            jx_len = 0; JX_P("J9"); jx_snap(); fputs(jx_buf, stdout);
         } else if (line[0] == 'Q') {
             break;
         } else {
